@@ -54,14 +54,11 @@ func propDefs() map[string]*PropDef {
 		ID: "C01",
 		Funcs: append(treeFuncs([]string{"Search", "Delete", "Insert"},
 			map[string][]string{"Search": append([]string{`/found_sound`}, safetyInc...), "Delete": append([]string{`/removed_key_matches`}, safetyInc...), "Insert": append([]string{`/new_leaf_holds_key`, `/overwrite_key_matches`}, safetyInc...)},
-			map[string][]string{"Insert": insertRung2,
-				// the byte frame across deleteChild is not stable within the limits for the numeric kinds
-				// (it is for byte-string, compound and collation trees): generated, not claimed
-				"Delete": {`^C/\(\*(unsigned|signed|float)SortedTree\[K,V\]\)\.Delete/removed_key_matches@ret#7`}}), withoutFn(helperFuncs(nil), "maximum")...),
+			map[string][]string{"Insert": insertRung2}), withoutFn(helperFuncs(nil), "maximum")...),
 		Floor: 2000,
 		Assumptions: []string{
 			"SCOPE: this check decides the 'each call returns normally' half of C01 (no index/slice/nil/cast/overflow fault, no reachable panic, every callee precondition met) for Insert, Search and Delete of all six tree kinds, for every tree satisfying the typing invariant WF1 - i.e. every reachable tree, PROVIDED WF1 is preserved by Insert/Delete. The functional half (results equal those of an ideal map; no key lost or resurrected) needs the path-coherence invariant (rung 2 of DESIGN.md)and is NOT decided here",
-			"two clauses of the FUNCTIONAL half that need no ghost state are decided as well: Search reports 'present' only when the leaf it ends in holds exactly the searched (transformed) key and returns that leaf's value (found_sound); Delete unlinks only a leaf that holds exactly the searched key (removed_key_matches; for the numeric kinds on the root-leaf exit only); every leaf Insert creates holds exactly the inserted key and value (new_leaf_holds_key) and its overwrite exit writes the new value into the leaf that holds exactly that key (overwrite_key_matches). That every stored key is FOUND (completeness of the descent) is the part that needs path coherence",
+			"two clauses of the FUNCTIONAL half that need no ghost state are decided as well: Search reports 'present' only when the leaf it ends in holds exactly the searched (transformed) key and returns that leaf's value (found_sound); Delete unlinks only a leaf that holds exactly the searched key (removed_key_matches; on the relinking exit of the generated numeric/compound kinds the match is recorded by a ghost assignment at the deleteChild call); every leaf Insert creates holds exactly the inserted key and value (new_leaf_holds_key) and its overwrite exit writes the new value into the leaf that holds exactly that key (overwrite_key_matches). That every stored key is FOUND (completeness of the descent) is the part that needs path coherence",
 			"WF1 preservation by Insert/Delete is proved for part of the cases only (evidence of C11 lists which); it is assumed here",
 			"ASSUMED, not proved: LinkedLive (no live node references a pooled or empty node: consequence of unique-parent ownership); acyclicity at the merge in Delete (the surviving child is not the holder of the relinked slot) and absence of uint32 overflow of the merged path length; key lengths and sizes < 2^31 / 2^62",
 			"three obligations of Insert (second branch byte differs from the first; long-path leaf key long enough; its extent) need path coherence and are generated but not claimed",
